@@ -1196,7 +1196,24 @@ class Interp(object):
             if not isinstance(k, Rat) and k in o:
                 return o[k]
             return unk("dictitem", repr(sorted(map(str, o))), idx)
+        if isinstance(o, Rat) and isinstance(idx, tuple) and len(idx) == 2 and _all_1d(o):
+            # v[None, :] / v[:, None] of a vector: the vector replicated along the other axis
+            full_ = lambda x: isinstance(x, tuple) and len(x) == 4 and x[0] == "slice" and x[2] is None and x[3] is None and \
+                (x[1] is None or (isinstance(x[1], Rat) and x[1].is_zero()))
+            if idx[0] is None and full_(idx[1]):
+                return mk_grid(o, 1)
+            if idx[1] is None and full_(idx[0]):
+                return mk_grid(o, 0)
         if isinstance(o, Rat):
+            # [f(c) for c in range(lo, hi, step)][k]  is  f(lo + k*step)
+            la = o.single_atom()
+            if isinstance(la, Fn) and la.name == "listcomp" and isinstance(idx, Rat) and isinstance(la.args[2], tuple) and \
+                    len(la.args[2]) == 3 and la.args[2][0] != "enumerate" and all(isinstance(x, Rat) for x in la.args[2]) and \
+                    isinstance(la.args[0], Rat):
+                lo_, hi_, st_ = la.args[2]
+                var = Sym(la.args[1], ("int", "loopvar"))
+                at = lo_ + idx * st_
+                return la.args[0].subst(lambda a: at if a == var else None)
             return Rat.atom(Fn("getitem", (o, idx)))
         return unk("subscript", repr(o))
 
@@ -1943,6 +1960,26 @@ def _meshgrid(I, a, k, e, env, ctx):
     return NotImplemented
 
 
+def _all_1d(v):
+    """every array-valued atom of v is a known vector producer (arange / linspace): v is 1-D"""
+    got = False
+    for a in v.atoms(False):
+        if isinstance(a, PowA):
+            if not _all_1d(a.base):
+                return False
+            got = True
+            continue
+        if isinstance(a, Fn) and a.name in ("arange", "linspace"):
+            got = True
+            continue
+        if isinstance(a, Sym) and not any(f in a.flags for f in ("array", "field", "attr")):
+            continue            # drivers flag array-valued parameters; an unflagged symbol is a scalar parameter
+        if isinstance(a, Fn) and a.name in SCALAR_FNS:
+            continue
+        return False
+    return got
+
+
 def _is_arrayish(a):
     from .plf import ARRAY_FNS
     if isinstance(a, Fn) and (a.name in ARRAY_FNS or a.name in ("getitem", "grid")):
@@ -1958,13 +1995,23 @@ def mk_grid(arg, axis):
         return mk_grid(Rat(dict(arg.num)), axis) / Rat(dict(arg.den))
     st = arg.single_term() if isinstance(arg, Rat) else None
     if st is None:
+        if isinstance(arg, Rat) and arg.den_is_one() and len(arg.num) > 1:
+            # broadcasting is elementwise: grid(P(a, b, ...)) = P(grid(a), grid(b), ...) for a polynomial P
+            out = Rat({})
+            for m_, c_ in arg.num.items():
+                out = out + mk_grid(Rat({m_: c_}), axis)
+            return out
         return Rat.atom(Fn("grid", (arg, axis)))
     coef, mono = st
     arr = tuple((a, e) for a, e in mono if Rat.atom(a).has_atom(_is_arrayish))
     sca = tuple((a, e) for a, e in mono if not Rat.atom(a).has_atom(_is_arrayish))
     if not arr:
-        return Rat.atom(Fn("grid", (arg, axis)))
-    return Rat({sca: coef}) * Rat.atom(Fn("grid", (Rat({arr: 1.0}), axis)))
+        return arg if isinstance(arg, Rat) else Rat.atom(Fn("grid", (arg, axis)))       # a scalar broadcasts to itself
+    out = Rat({sca: coef})
+    for a_, e_ in arr:
+        # a power of a replicated vector is the replicated power: grid(a)^e
+        out = out * Rat({((Fn("grid", (Rat.atom(a_), axis)), e_),): 1.0})
+    return out
 
 
 @ext("numpy.indices")
@@ -2001,6 +2048,13 @@ def _outer(I, a, k, e, env, ctx):
     if len(a) == 2 and all(isinstance(x, Rat) for x in a):
         nm = {"subtract": "outer_sub", "add": "outer_add"}.get(norm_text(e.func).split(".")[-2], "outer")
         return Rat.atom(Fn(nm, (a[0], a[1])))
+    return NotImplemented
+
+
+@ext("builtins.divmod")
+def _divmod(I, a, k, e, env, ctx):
+    if len(a) == 2 and all(isinstance(x, Rat) for x in a):
+        return (Rat.atom(Fn("floordiv", (a[0], a[1]))), Rat.atom(Fn("mod", (a[0], a[1]))))
     return NotImplemented
 
 
